@@ -233,7 +233,169 @@ func c17Burst(c *vf.Case) {
 	}
 }
 
+// c17CancelledWrite: an asynchronous write (of an application message, of the Pong the read path owes, or of the
+// client's Close frame) is parked
+// on a transport that is not writable and is then cancelled (ErrCancelled, nothing accepted) - what Cancel() on the
+// descriptor does. The stream stays usable. Every callback involved runs exactly once, and whatever reaches the wire
+// afterwards parses into whole masked frames in which no frame is repeated: a frame whose write was reported as failed
+// may still go out with the next flush (its bytes were already serialized) or never, but not twice; a write that
+// reported success is on the wire exactly once; the order of submission is kept.
+func c17CancelledWrite(c *vf.Case) {
+	r := c.Rng
+	s, t := newWS(c)
+	if s == nil {
+		return
+	}
+	t.DeferWrites = r.Bool()
+	t.DeferReads = r.Bool()
+	serial := 0
+	uniq := func(tag string) []byte {
+		serial++
+		return append([]byte(fmt.Sprintf("<%s-%d-%d>", tag, c.Index, serial)), asciiBytes(r, r.Range(0, 200))...)
+	}
+	type sub struct {
+		what    string
+		opcode  byte
+		payload []byte
+		calls   int
+		err     error
+	}
+	var subs []*sub
+	write := func(what string) *sub {
+		x := &sub{what: what, opcode: wsref.OpBinary, payload: uniq("w")}
+		subs = append(subs, x)
+		c.Logf("%s: AsyncWrite %d bytes", what, len(x.payload))
+		s.AsyncWrite(x.payload, websocket.TypeBinary, func(e error) { x.calls++; x.err = e })
+		return x
+	}
+	rounds := r.Range(1, 3)
+	readCalls, readArmed := 0, false
+	for round := 0; round < rounds && !c.Failed(); round++ {
+		t.HoldWrites = true
+		viaPing := r.Chance(1, 3)
+		var first *sub
+		if viaPing {
+			// the read path owes a Pong: its flush is the write that gets parked
+			first = &sub{what: "Pong owed for a Ping", opcode: wsref.OpPong, payload: append([]byte(fmt.Sprintf("<ping-%d-%d>", c.Index, round)), asciiBytes(r, r.Intn(80))...), calls: 1}
+			subs = append(subs, first)
+			t.Feed(wsref.Frame{Fin: true, Opcode: wsref.OpPing, Payload: first.payload}.Encode())
+			if !readArmed {
+				readArmed = true
+				s.AsyncNextFrame(func(error, websocket.Frame) { readCalls++; readArmed = false })
+			}
+			t.Pump()
+			c.Logf("round %d: Ping fed with a read armed; the Pong's write is parked (held writes: %d)", round, t.HeldWrites())
+		} else if round == rounds-1 && r.Chance(1, 3) {
+			// the parked write carries the client's Close frame
+			reason := fmt.Sprintf("bye-%d-%d", c.Index, round)
+			x := &sub{what: fmt.Sprintf("round %d: AsyncClose (parked)", round), opcode: wsref.OpClose, payload: wsref.ClosePayload(1000, reason)}
+			subs = append(subs, x)
+			first = x
+			c.Logf("%s", x.what)
+			s.AsyncClose(websocket.CloseCode(1000), reason, func(e error) { x.calls++; x.err = e })
+		} else {
+			first = write(fmt.Sprintf("round %d: first write (parked)", round))
+		}
+		t.Pump()
+		if t.HeldWrites() != 1 {
+			c.Count("cancelled_write_probes_without_a_parked_write", 1)
+			t.ReleaseWrites()
+			t.Pump()
+			continue
+		}
+		var behind []*sub
+		for i := 0; i < r.Intn(3); i++ {
+			behind = append(behind, write(fmt.Sprintf("round %d: queued behind the parked write", round)))
+		}
+		t.Pump()
+		n := t.CancelWrites()
+		t.Pump()
+		c.Logf("round %d: %d parked write(s) cancelled", round, n)
+		c.Count("asynchronous_writes_cancelled", n)
+		if t.HeldWrites() > 1 {
+			c.Failf("more-than-one-write-in-flight", "after a cancelled write %d asynchronous writes are on the transport at the same time", t.HeldWrites())
+			return
+		}
+		// the transport is writable again; whatever the stream still wants to send goes out, then one more write
+		t.ReleaseWrites()
+		t.Pump()
+		last := write(fmt.Sprintf("round %d: write after the cancellation", round))
+		s.AsyncFlush(func(error) {})
+		for i := 0; i < 50 && (t.Pump() > 0 || t.HeldWrites() > 0); i++ {
+			t.ReleaseWrites()
+		}
+		if last.calls != 1 {
+			c.Failf("callback-dropped/AsyncWrite/after-a-cancelled-write", "%s: callback invoked %d times", last.what, last.calls)
+			return
+		}
+		_ = behind
+	}
+	for _, x := range subs {
+		if x.calls != 1 {
+			key := "callback-dropped"
+			if x.calls > 1 {
+				key = "callback-invoked-twice"
+			}
+			c.Failf(key+"/AsyncWrite/around-a-cancelled-write", "%s: callback invoked %d times (err=%v)", x.what, x.calls, x.err)
+			return
+		}
+	}
+	frames, rest, st := wsref.ParseAll(t.Written, -1)
+	if st != wsref.OK || len(rest) != 0 {
+		c.Failf("wire-does-not-parse-into-whole-frames/after-a-cancelled-write", "%d wire bytes: %d whole frames, then %d bytes that are no frame", len(t.Written), len(frames), len(rest))
+		return
+	}
+	pos := map[int]int{}
+	for fi, f := range frames {
+		if !f.Masked {
+			c.Failf("frame-not-masked/after-a-cancelled-write", "wire frame %d is not masked", fi)
+			return
+		}
+		found := -1
+		for si, x := range subs {
+			if f.Opcode == x.opcode && bytes.Equal(f.Payload, x.payload) {
+				found = si
+			}
+		}
+		if found < 0 {
+			if f.Opcode == wsref.OpClose {
+				continue
+			}
+			c.Failf("unexpected-frame-on-wire/after-a-cancelled-write", "wire frame %d (opcode %d, %d bytes) is none of the frames submitted", fi, f.Opcode, len(f.Payload))
+			return
+		}
+		if prev, dup := pos[found]; dup {
+			c.Failf("frame-repeated-on-wire/after-a-cancelled-write", "%s is on the wire twice (wire frames %d and %d of %d)", subs[found].what, prev, fi, len(frames))
+			return
+		}
+		pos[found] = fi
+	}
+	lastPos := -1
+	for si, x := range subs {
+		p, on := pos[si]
+		if !on {
+			if x.err == nil && x.opcode != wsref.OpPong {
+				c.Failf("write-reported-success-not-on-wire/after-a-cancelled-write", "%s completed without error but its frame is not on the wire", x.what)
+				return
+			}
+			continue
+		}
+		if p < lastPos {
+			c.Failf("frames-out-of-submission-order/after-a-cancelled-write", "%s is on the wire before a frame submitted earlier", x.what)
+			return
+		}
+		lastPos = p
+	}
+	c.Count("cancelled_write_probes", 1)
+	c.Count("frames_on_wire_after_cancelled_writes", len(frames))
+}
+
 func runC17(c *vf.Case) {
+	if c.Index%25 == 17 {
+		c17CancelledWrite(c)
+		c.NonTrivial(fmt.Sprintf("cancelled-write/%d", c.Index))
+		return
+	}
 	if c.Index%25 == 11 {
 		c17Burst(c)
 		c.NonTrivial(fmt.Sprintf("burst/%d", c.Index))
@@ -636,7 +798,7 @@ func init() {
 	register(&vf.Check{
 		ID:        "C17",
 		Technique: "runtime monitor: callback ledger over every asynchronous WebSocket API + independent parser over the bytes the peer received, for scripts that place peer events and application calls relative to poll cycles and transport writability; scripted transport (deferred completions, unwritable periods) at scale and the real AsyncAdapter on a loopback socket obtained through a real handshake",
-		Rule: "a third of the sessions start with a blocking Write/WriteFrame; one write in 25 carries 129-400 KB; one case in 25 is a burst of 33-150 complete frames in one transport read with the read re-armed from every handler and a silent peer afterwards; " +
+		Rule: "one case in 25 parks an asynchronous write (an application message, the Pong owed for a Ping, or the client's Close) on a transport that is not writable, queues 0-2 writes behind it and cancels the parked write (ErrCancelled, nothing accepted), then writes again: every callback exactly once, the wire parses into whole masked frames, no submitted frame is on it twice, a write that reported success exactly once, submission order kept; a third of the sessions start with a blocking Write/WriteFrame; one write in 25 carries 129-400 KB; one case in 25 is a burst of 33-150 complete frames in one transport read with the read re-armed from every handler and a silent peer afterwards; " +
 			"cases = scripts of 6-40 steps: arm a read (AsyncNextFrame / AsyncNextMessage, re-armed from its own callback 3 times out of 4), start a write (AsyncWrite, AsyncWriteFrame, AsyncFlush, AsyncClose; one application write at a time), peer sends data / ping / close, the transport becomes not writable / writable again, one unit of progress (one deferred completion on the scripted transport; PollOne + peer drain on the real socket); 3 of 4 cases on the scripted transport, 1 of 4 on the real adapter after a real handshake; every script ends with a bounded quiescence; " +
 			"non-trivial = a read and a write were in flight together at least once; distinct = (variant, overlaps, control frames handled during a write, shape)",
 		Assumptions: []string{
